@@ -831,6 +831,11 @@ class Summarizer:
                             if e[0] != "guard" and e not in st.events[seen:]:
                                 st.events.append(e)
                     return val
+        if isinstance(n.func, ast.Name) and n.func.id in st.env and not isinstance(st.env[n.func.id], Sym):
+            pass
+        elif isinstance(n.func, ast.Name) and n.func.id in st.env and isinstance(st.env[n.func.id], Sym) and st.env[n.func.id].key[:1] not in (("name",), ("func",)):
+            # the callee is whatever a local variable holds (picked from a table, returned by a call): what is called is not known here
+            raise Unsupported("call through the local variable %s (%s)" % (n.func.id, show_value(st.env[n.func.id])[:60]))
         recv0 = self.expr(n.func.value, st) if isinstance(n.func, ast.Attribute) else None
         st.events.append(("call", fname, tuple(vkey(a) for a in args), tuple(sorted(((k or "**"), vkey(x)) for k, x in kwargs.items())), n.lineno, vkey(recv0) if recv0 is not None else None))
         allargs = tuple(vkey(a) for a in args) + tuple((k, vkey(x)) for k, x in sorted(kwargs.items(), key=lambda kv: kv[0] or "**"))
